@@ -102,6 +102,7 @@ void exec_fs_plan(const Plan &plan, Ctx &ctx, Outcome &out);
 Plan gen_mt_plan(const std::string &prop, Rng &rng, long long sub, const std::string &tier);
 void exec_mt_plan(const Plan &plan, Ctx &ctx, Outcome &out);
 
+Plan materialise_fs_plan(const Plan &plan);   // faults applied: the delivered files become the (raw) project, no fault ops left
 uint64_t allocated_bytes();   // sanitizer's live heap bytes (0 when unavailable)
 
 }  // namespace sim
